@@ -14,6 +14,7 @@ import (
 
 	"github.com/elastos/Elastos.ELA/common"
 	pg "github.com/elastos/Elastos.ELA/core/contract/program"
+	"github.com/elastos/Elastos.ELA/core/types"
 	common2 "github.com/elastos/Elastos.ELA/core/types/common"
 	"github.com/elastos/Elastos.ELA/core/types/interfaces"
 
@@ -311,6 +312,7 @@ type txParts struct {
 	Inputs     []*common2.Input
 	Outputs    []*common2.Output
 	Programs   []*pg.Program
+	LockTime   uint32
 }
 
 func (c *ctx) boundaryCases() (out []bcase, seq []bcase) {
@@ -380,7 +382,7 @@ func (c *ctx) boundaryCases() (out []bcase, seq []bcase) {
 				p, _ := wire.NewPayload(common2.TransferAsset, 0, f)
 				tx := wire.NewTx(common2.TransferAsset, 0, p, wire.TxShape{Version: common2.TxVersion09, Attrs: []common2.AttributeUsage{common2.Memo}, Inputs: 1,
 					Outputs: []common2.OutputType{ot}, OutVar: v, Programs: 1}, f)
-				return &txParts{Payload: tx.Payload(), Attributes: tx.Attributes(), Inputs: tx.Inputs(), Outputs: tx.Outputs(), Programs: tx.Programs()}
+				return &txParts{Payload: tx.Payload(), Attributes: tx.Attributes(), Inputs: tx.Inputs(), Outputs: tx.Outputs(), Programs: tx.Programs(), LockTime: tx.LockTime()}
 			}
 			lens := boundaryLens
 			if ot != common2.OTNone {
@@ -394,6 +396,7 @@ func (c *ctx) boundaryCases() (out []bcase, seq []bcase) {
 				tx.SetInputs(parts.Inputs)
 				tx.SetOutputs(parts.Outputs)
 				tx.SetPrograms(parts.Programs)
+				tx.SetLockTime(parts.LockTime)
 				return wire.EncodeTx(tx)
 			}
 			bc.decode = func(b []byte) (interface{}, int, error) {
@@ -404,7 +407,7 @@ func (c *ctx) boundaryCases() (out []bcase, seq []bcase) {
 					return nil, 0, err
 				}
 				tx := v.(interfaces.Transaction)
-				return &txParts{Payload: tx.Payload(), Attributes: tx.Attributes(), Inputs: tx.Inputs(), Outputs: tx.Outputs(), Programs: tx.Programs()}, tr.Remaining(), nil
+				return &txParts{Payload: tx.Payload(), Attributes: tx.Attributes(), Inputs: tx.Inputs(), Outputs: tx.Outputs(), Programs: tx.Programs(), LockTime: tx.LockTime()}, tr.Remaining(), nil
 			}
 			out = append(out, bc)
 		}
@@ -433,6 +436,14 @@ func (c *ctx) boundaryCases() (out []bcase, seq []bcase) {
 		bc2 := bcase{name: "confirm", class: "confirm", lens: short, build: func() interface{} { return wire.NewConfirm(mk(), 1) }}
 		serCodec(&bc2, func() common.Serializable { return wire.NewConfirm(&wire.Filler{Zero: true}, 0) })
 		out = append(out, bc2)
+	}
+	{
+		bc := bcase{name: "dposblock", class: "dposblock", lens: short, build: func() interface{} {
+			f := mk()
+			return &types.DposBlock{Block: &types.Block{Header: *wire.NewHeader(f, 1, 1), Transactions: wire.SmallTxs(f, 1)}, HaveConfirm: true, Confirm: wire.NewConfirm(f, 1)}
+		}}
+		serCodec(&bc, func() common.Serializable { return &types.DposBlock{} })
+		out = append(out, bc)
 	}
 	for _, sp := range append(wire.P2PMsgSpecs(), wire.DposMsgSpecs()...) {
 		sp := sp
